@@ -36,6 +36,28 @@ theorem cart_sph_cart (x y z : ℝ) (h : (x, y, z) ≠ (0, 0, 0)) :
   congr 2
   rw [← mul_div_assoc, mul_div_cancel_left₀ _ hr]
 
+/-- **spherical → Cartesian → spherical is the identity** on `r > 0`, `0 < θ < π`, `−π < ϕ ≤ π`
+(on the z axis the longitude is not determined) -/
+theorem sph_cart_sph (r φ θ : ℝ) (hr : 0 < r) (hθ0 : 0 < θ) (hθ1 : θ < Real.pi)
+    (hφ : φ ∈ Set.Ioc (-Real.pi) Real.pi) :
+    toSpherical (toCartesian φ θ r).1 (toCartesian φ θ r).2.1 (toCartesian φ θ r).2.2 = (r, φ, θ) := by
+  have hn := toCartesian_normsq φ θ r
+  have hsin : 0 < Real.sin θ := Real.sin_pos_of_pos_of_lt_pi hθ0 hθ1
+  simp only [toCartesian, Rsin, Rcos] at hn ⊢
+  have hsq : Real.sqrt (r * Real.sin θ * Real.cos φ * (r * Real.sin θ * Real.cos φ)
+      + r * Real.sin θ * Real.sin φ * (r * Real.sin θ * Real.sin φ) + r * Real.cos θ * (r * Real.cos θ)) = r := by
+    have : r * Real.sin θ * Real.cos φ * (r * Real.sin θ * Real.cos φ)
+      + r * Real.sin θ * Real.sin φ * (r * Real.sin θ * Real.sin φ) + r * Real.cos θ * (r * Real.cos θ) = r ^ 2 := by
+      linear_combination hn
+    rw [this, Real.sqrt_sq hr.le]
+  simp only [toSpherical, Rsqrt, Racos, Ratan2, hsq]
+  have h1 : r * Real.cos θ / r = Real.cos θ := by field_simp
+  rw [h1, Real.arccos_cos hθ0.le hθ1.le]
+  have h2 : (⟨r * Real.sin θ * Real.cos φ, r * Real.sin θ * Real.sin φ⟩ : ℂ)
+      = ((r * Real.sin θ : ℝ) : ℂ) * (Complex.cos φ + Complex.sin φ * Complex.I) := by
+    apply Complex.ext <;> simp [Complex.cos_ofReal_re, Complex.sin_ofReal_re, Complex.cos_ofReal_im, Complex.sin_ofReal_im]
+  rw [h2, Complex.arg_mul_cos_add_sin_mul_I (mul_pos hr hsin) hφ]
+
 /-- **the documented convention**: the first value is the distance from the origin, the second is the
 longitude `ϕ = arg(x + iy) ∈ (−π, π]` measured from the x axis towards the y axis
 (`ρ cos ϕ = x`, `ρ sin ϕ = y`, `ρ = √(x²+y²)`), the third is the colatitude `θ ∈ [0, π]` measured from
